@@ -1,7 +1,9 @@
-import TwistedProps.C18.Basic
+import TwistedProps.C18.ChunkedLoop
 /-!
 C18 lemmas, part 2: the body decoders seen through one interface (`decFeed`), the splitting
-property a decoder must have (`SplitOK`), and its proof for `_IdentityTransferDecoder`.
+property a decoder must have (`SplitOK`), and its proof for `_IdentityTransferDecoder`
+(for `_ChunkedTransferDecoder`: `ChunkedFind/Step/Loop/Split.lean`).  "Same decoder" is up to the dead
+`length` attribute of a chunked decoder (`decRel`, `DRes.rel`).
 -/
 namespace TwistedProps.C18
 open Twisted.Http.Chunked hiding St
@@ -79,9 +81,61 @@ theorem raw_eq (app : App) (c : Chan) (data : Bytes) (h : c.handling = false) :
         simp only [finishRequestBody]
         exact acr_decoder app c (.chunked d') (ofBody d'.data) _ rfl
 
+/-- decoders a caller of `dataReceived` cannot tell apart: equal, or chunked decoders that differ
+    in the dead `length` attribute only (`lenEq`, `C18/ChunkedStep.lean`) -/
+def decRel (d1 d2 : Decoder) : Prop :=
+  d1 = d2 ∨ ∃ a b, d1 = .chunked a ∧ d2 = .chunked b ∧ lenEq a b
+
+theorem decRel.refl (d : Decoder) : decRel d d := Or.inl rfl
+
+theorem decRel.symm {d1 d2 : Decoder} (h : decRel d1 d2) : decRel d2 d1 := by
+  rcases h with h | ⟨a, b, h1, h2, h3⟩
+  · exact Or.inl h.symm
+  · exact Or.inr ⟨b, a, h2, h1, h3.symm⟩
+
+theorem decRel.trans {d1 d2 d3 : Decoder} (h : decRel d1 d2) (h' : decRel d2 d3) : decRel d1 d3 := by
+  rcases h with h | ⟨a, b, h1, h2, h3⟩
+  · subst h; exact h'
+  · rcases h' with h' | ⟨a', b', g1, g2, g3⟩
+    · subst h'; exact Or.inr ⟨a, b, h1, h2, h3⟩
+    · rw [h2] at g1
+      simp only [Decoder.chunked.injEq] at g1
+      subst g1
+      exact Or.inr ⟨a, b', h1, g2, h3.trans g3⟩
+
+/-- verdicts that lead `rawDataReceived` to the same behaviour: equal, or `more` with decoders
+    related by `decRel` -/
+def DRes.rel (r1 r2 : DRes) : Prop :=
+  r1 = r2 ∨ ∃ a b, r1 = .more (.chunked a) ∧ r2 = .more (.chunked b) ∧ lenEq a b
+
+theorem DRes.rel.refl (r : DRes) : DRes.rel r r := Or.inl rfl
+
+theorem DRes.rel_bad {r : DRes} (h : DRes.rel .bad r) : r = .bad := by
+  rcases h with h | ⟨a, b, h1, _⟩
+  · exact h.symm
+  · simp at h1
+
+theorem DRes.rel_exc {r : DRes} {e : Exc} (h : DRes.rel (.exc e) r) : r = .exc e := by
+  rcases h with h | ⟨a, b, h1, _⟩
+  · exact h.symm
+  · simp at h1
+
+theorem DRes.rel_fin {r : DRes} {body extra : Bytes} (h : DRes.rel (.fin body extra) r) : r = .fin body extra := by
+  rcases h with h | ⟨a, b, h1, _⟩
+  · exact h.symm
+  · simp at h1
+
+theorem DRes.rel_more {r : DRes} {d : Decoder} (h : DRes.rel (.more d) r) : ∃ d', r = .more d' ∧ decRel d d' := by
+  rcases h with h | ⟨a, b, h1, h2, h3⟩
+  · exact ⟨d, h.symm, decRel.refl d⟩
+  · simp only [DRes.more.injEq] at h1
+    exact ⟨.chunked b, h2, Or.inr ⟨a, b, h1, rfl, h3⟩⟩
+
 /-- the splitting property of the body decoders, for decoders satisfying `ok` -/
 structure SplitOK (ok : Decoder → Prop) : Prop where
-  more : ∀ d B b d', ok d → decFeed d B = .more d' → decFeed d' b = decFeed d (B ++ b)
+  more : ∀ d B b d', ok d → decFeed d B = .more d' → DRes.rel (decFeed d' b) (decFeed d (B ++ b))
+  /-- related decoders give related verdicts -/
+  cong : ∀ d1 d2 Y, ok d2 → decRel d1 d2 → DRes.rel (decFeed d1 Y) (decFeed d2 Y)
   fin : ∀ d B b body extra, ok d → decFeed d B = .fin body extra → decFeed d (B ++ b) = .fin body (extra ++ b)
   bad : ∀ d B b, ok d → decFeed d B = .bad → decFeed d (B ++ b) = .bad
   exc : ∀ d B b e, ok d → decFeed d B = .exc e → decFeed d (B ++ b) = .exc e
